@@ -707,11 +707,26 @@ def r7_19(ctx):
     g = cfgmod.build(f.node)
     mw = f.params[2] if len(f.params) > 2 else "max_width"
     tests = set()
-    for nd in g.nodes:
-        if nd.id in g.reachable and nd.kind == "test" and nd.expr is not None:
-            txt = norm(nd.expr).replace(" ", "")
-            if "self.expand" in txt and (f"table_width<{mw}" in txt or f"sum(widths)<{mw}" in txt or f"{mw}>table_width" in txt):
-                tests.add(nd.id)
+    # the padding stage: the statement that distributes the missing cells over the columns (ratio_distribute(.., widths)); the test
+    # that decides it is the innermost `if` around it - whatever temporaries the condition is computed through
+    pads = [c for c in walk_local(f.node) if isinstance(c, ast.Call) and norm(c.func).endswith("ratio_distribute") and len(c.args) >= 2 and norm(c.args[1]) == "widths"]
+    for c in pads:
+        cur = m.parent_of.get(c)
+        prev = c
+        while cur is not None and cur is not f.node:
+            if isinstance(cur, ast.If) and any(prev is b_ or prev in list(ast.walk(b_)) for b_ in cur.body):
+                for nd in g.nodes:
+                    if nd.id in g.reachable and nd.kind == "test" and nd.stmt is cur:
+                        tests.add(nd.id)
+                break
+            prev = cur
+            cur = m.parent_of.get(cur)
+    if not tests:
+        for nd in g.nodes:
+            if nd.id in g.reachable and nd.kind == "test" and nd.expr is not None:
+                txt = norm(nd.expr).replace(" ", "")
+                if "self.expand" in txt and (f"table_width<{mw}" in txt or f"sum(widths)<{mw}" in txt or f"{mw}>table_width" in txt):
+                    tests.add(nd.id)
     if not tests:
         raise AnalysisError("Table._calculate_column_widths: no test `table_width < max_width and self.expand` found; the padding stage is written in a form this rule does not read")
     dom = g.dominators()
